@@ -94,7 +94,8 @@ pub fn slow_outcome(c: &SlowCase) -> Outcome {
             let mut links: Vec<Link> = vec![];
             let total_subs = n_slow + if c.with_healthy { 1 } else { 0 };
             for _ in 0..total_subs {
-                match simx::attach_raw(&mut sim, s, None).await {
+                // every other case the subscribers announce an empty Identity (libzmq's default)
+                match simx::attach_raw(&mut sim, s, if c.publishes.len() % 2 == 1 { Some(&[][..]) } else { None }).await {
                     Ok((l, _)) => {
                         // subscribe to everything / to "tt"
                         l.raw_send_now(&[if c.filtered { vec![1u8, b't', b't'] } else { vec![1u8] }]);
